@@ -405,22 +405,36 @@ def _run_shard(cmd, lines, cwd=None, timeout=3000):
     return (p.returncode if p.returncode is not None else -9), out, err
 
 
+def _run_part(cmd, part, cwd, timeout, restarts=3):
+    """one shard: when the child dies or stalls at some case, that case is marked and a fresh child goes on with
+    the rest (at most [restarts] times; what is left then is marked NOT-RUN)."""
+    out, rest = [], part
+    for attempt in range(restarts + 1):
+        rc, o, err = _run_shard(cmd, rest, cwd, timeout)
+        if len(o) >= len(rest):
+            return out + o[:len(rest)]
+        tail = err.strip().splitlines()[-1:] if err.strip() else ["rc=%d" % rc]
+        kind = "TIMEOUT:" if any("TIMEOUT" in t for t in tail) else "CRASH:"
+        out += o + [kind + " ".join(tail)]
+        rest = rest[len(o) + 1:]
+        if not rest:
+            return out
+    return out + ["NOT-RUN"] * len(rest)
+
+
 def run_sharded(cmd, lines, cwd=None, shards=None, timeout=3000):
     """feed case lines to `cmd` in parallel shards; returns list of output lines (same order).
-    A shard that dies yields 'CRASH:<stderr tail>' for the case at which output stops."""
+    A case at which a child dies yields 'CRASH:<stderr tail>', one at which it hangs 'TIMEOUT:...'."""
     if not lines:
         return []
     shards = shards or min(NCPU, max(1, len(lines) // 50))
     size = (len(lines) + shards - 1) // shards
     parts = [lines[i:i + size] for i in range(0, len(lines), size)]
     with ThreadPoolExecutor(max_workers=NCPU) as ex:
-        rs = list(ex.map(lambda part: _run_shard(cmd, part, cwd, timeout), parts))
+        rs = list(ex.map(lambda part: _run_part(cmd, part, cwd, timeout), parts))
     out = []
-    for part, (rc, o, err) in zip(parts, rs):
-        if len(o) < len(part):
-            tail = err.strip().splitlines()[-1:] if err.strip() else ["rc=%d" % rc]
-            o = o + ["CRASH:" + " ".join(tail)] + ["NOT-RUN"] * (len(part) - len(o) - 1)
-        out += o[:len(part)]
+    for r in rs:
+        out += r
     return out
 
 
